@@ -1085,6 +1085,10 @@ helperHandleRead(const Comm::ConnectionPointer &conn, char *, size_t len, Comm::
                         ++msg;
                 } // else not enough data to compute request number
             }
+            // do not look for the request until its whole channel ID has arrived:
+            // the digits seen so far may be a prefix of another request's ID
+            if (needsMore)
+                break;
             if (!(srv->replyXaction = srv->popRequest(i))) {
                 if (srv->stats.timedout) {
                     debugs(84, 3, "Timedout reply received for request-ID: " << i << " , ignore");
